@@ -390,6 +390,19 @@ func runC07(r *Report, rng *rand.Rand, thorough bool) {
 		}
 		schemas = append(schemas, fs)
 	}
+	// a third fixed schema: one optional member of every kind in a type WITH additional properties (the emitted
+	// MarshalJSON decides member by member what is written); the members of nil-able types go without pointer
+	{
+		fs := mSchema{Name: "MAll2", Addl: "string"}
+		for j, k := range kinds {
+			f := mField{Name: fmt.Sprintf("f%d", j), Kind: k}
+			if k == "arr" {
+				f.SkipPtr = true
+			}
+			fs.Fields = append(fs.Fields, f)
+		}
+		schemas = append(schemas, fs)
+	}
 	for i := 0; i < nSchemas; i++ {
 		s := mSchema{Name: fmt.Sprintf("M%d", i), Addl: []string{"", "", "any", "string", "int", "array", "object", "map"}[rng.Intn(8)]}
 		n := 1 + rng.Intn(5)
@@ -402,7 +415,12 @@ func runC07(r *Report, rng *rand.Rand, thorough bool) {
 				f.Nullable = false
 			}
 			if !f.Required && !f.Nullable && (f.Kind == "string" || f.Kind == "arr" || f.Kind == "int") && rng.Intn(3) == 0 {
-				f.SkipPtr = true
+				// in a type with additional properties the emitted MarshalJSON tests every optional member against nil, which
+				// does not compile for a pointer-less string / int (recorded finding, probe package c07_probe_skipptr below):
+				// there only members of a nil-able type go without pointer
+				if s.Addl == "" || f.Kind == "arr" {
+					f.SkipPtr = true
+				}
 			}
 			if rng.Intn(8) == 0 {
 				f.RO = true
@@ -415,6 +433,15 @@ func runC07(r *Report, rng *rand.Rand, thorough bool) {
 	}
 	// packages of 10 schemas, for nullable-type off and on
 	var pkgs []LabPkg
+	{
+		// probe: an optional member without a pointer (x-go-type-skip-optional-pointer) of a type that has no nil, in a type
+		// with additional properties
+		spec, _ := json.Marshal(map[string]any{"openapi": "3.0.3", "info": map[string]any{"title": "m", "version": "1"}, "paths": map[string]any{}, "components": map[string]any{"schemas": map[string]any{
+			"Probe": map[string]any{"type": "object", "additionalProperties": true, "properties": map[string]any{"n": map[string]any{"type": "integer", "x-go-type-skip-optional-pointer": true}}}}}})
+		cfg := codegen.Configuration{Generate: codegen.GenerateOptions{Models: true}}
+		cfg.OutputOptions.SkipPrune = true
+		pkgs = append(pkgs, LabPkg{Name: "c07_probe_skipptr", Spec: spec, Cfg: cfg})
+	}
 	per := 10
 	type variant struct {
 		tag       string
@@ -443,6 +470,14 @@ func runC07(r *Report, rng *rand.Rand, thorough bool) {
 	if err != nil {
 		r.Violate("lab_build_failed", err.Error(), nil)
 		return
+	}
+	if st := lab.Status["c07_probe_skipptr"]; !st.OK {
+		sig := "lab_package_broken/c07_probe_skipptr"
+		if strings.Contains(st.CompileError, "!= nil (mismatched types") {
+			sig = "optional_member_without_pointer_of_a_type_without_nil_next_to_additional_properties_does_not_compile"
+		}
+		r.Violate(sig, fmt.Sprintf("c07_probe_skipptr: %s %s", trunc(st.GenerateError, 300), trunc(st.CompileError, 400)),
+			map[string]any{"schema": map[string]any{"type": "object", "additionalProperties": true, "properties": map[string]any{"n": map[string]any{"type": "integer", "x-go-type-skip-optional-pointer": true}}}})
 	}
 	var scenarios []map[string]any
 	type meta struct {
